@@ -60,7 +60,7 @@ for _lvl, (_a, _k, _toks) in enumerate(TABLE, 1):
     for _s, _v in _toks.items():
         {'b': BINARY, 'p': PREFIX, 's': POSTFIX}[_k][_s] = (_lvl, _a, _v)
 
-ATOMS = ['a', 'b', 'c', 'p', 'q', 'x1', 'TRUE', 'FALSE', '0', '7', '12']
+ATOMS = ['a', 'b', 'c', 'p', 'q', 'x1', 'TRUE', 'FALSE', '0', '7', '12', '"s1"', '"abc"']
 ATOM_SYNONYMS = {}     # `True`, `true`, ... are accepted but not documented: not claimed
 
 
@@ -77,6 +77,8 @@ def _atom_repr(tok):
         return "Bool('TRUE', 'bool')"
     if tok in ('FALSE', 'False', 'false'):
         return "Bool('FALSE', 'bool')"
+    if tok.startswith('"') and tok.endswith('"') and len(tok) > 2:
+        return f"Str({tok!r}, 'str')"
     if tok.isdigit():
         return f"Num({tok!r}, 'num')"
     if re.fullmatch(r'[A-Za-z_][A-Za-z0-9_]*', tok):
@@ -546,4 +548,41 @@ def comment_bodies(max_len):
                                 fails.append(dict(name='Parser.parse: comments and line breaks do not matter',
                                                   text=v, parser_tree=got, tree_without=want[text]))
         return _result(n, fails, exhaustive=f'every comment body of at most {max_len} characters over {alphabet}')
+    return run
+
+
+def comment_line_breaks(seed, n_seq):
+    """A one-line comment ends at the line break: the SAME tokens with the break
+    before or after the rest of the line are different formulas; one parser
+    instance parses both (in both orders) and each must get its own tree."""
+    def run():
+        rnd = random.Random(seed)
+        fails = list()
+        n = 0
+        for _ in range(n_seq):
+            left, right = list(), list()
+            _gen(rnd, 2, left)
+            _gen(rnd, 2, right)
+            op = rnd.choice(sorted(BINARY))
+            try:
+                want_full = ref_tree(left + [op] + right, KEPT)
+                want_left = ref_tree(left, KEPT)
+            except RefError:
+                continue
+            note = rnd.choice(['note', 'c /\\ d', 'x )', '~'])
+            a = ' '.join(left) + ' \\* ' + note + '\n ' + op + ' ' + ' '.join(right)        # the comment ends early
+            b = ' '.join(left) + ' \\* ' + note + ' ' + op + ' ' + ' '.join(right) + '\n'     # the comment swallows the rest
+            order = [(a, want_full), (b, want_left)]
+            if rnd.random() < 0.5:
+                order.reverse()
+            for text, want in order:
+                n += 1
+                try:
+                    got = repr(real_tree(text))
+                except Exception as e:
+                    got = repr(e)[:120]
+                if _modulo_kept(got) != _modulo_kept(want) and len(fails) < 8:
+                    fails.append(dict(name='Parser.parse: a one-line comment ends at the line break (same tokens, other placement of the break, same parser instance)',
+                                      text=text, documented_tree=want, parser_tree=got))
+        return _result(n, fails, seed=seed)
     return run
